@@ -60,6 +60,11 @@ CHECKS = {
         technique="TLA+ value semantics of affine expressions (Affine.tla: Eval, substitution) evaluated by TLC as reference for tables produced by the real eval() of built / simplified / composed / substituted / re-parsed expressions",
         text="Abstract expression trees (all depth-1 trees plus seeded depth 2-3) are built with the Python operators and the raw constructor, simplified, composed with maps, substituted and printed + re-parsed; the real eval() of each form is tabulated on a box of 75 (thorough: 147) points and TLC compares every entry with Eval of the original tree under the substitution.",
         note="Trusted: Affine.tla; TLC integer arithmetic (values far below 2^31). Divisors / moduli are positive constants as the property requires."),
+    "C10": dict(
+        category="exploration", design_ref="DESIGN.md §3.9, §4 C10",
+        technique="TLA+ exists-a-split semantics of IRDL operation definitions (OpDefVerify.tla) evaluated by TLC as reference for verify() and the generated accessors of dynamically created real op classes",
+        text="Seeded definitions (operand/result/region segments single/optional/variadic, constraints any/eq/shared type variable, options none/same-size/attribute-sized) become real classes through irdl_op_definition; raw instances (incl. missing, wrong-length, negative and non-summing size arrays) are verified for real and TLC decides Accepts by enumerating segment splits and variable bindings; constructor-built instances must verify; each accessor must return the segment of the unique split TLC computes.",
+        note="Trusted: OpDefVerify.tla; successor segments and attribute/property constraints other than the size arrays are not generated; definitions the library refuses at class creation are skipped."),
 }
 
 NOT_APPLICABLE = {
